@@ -22,11 +22,11 @@ def sh(cmd, cwd=None, env=None, timeout=1800):
     return p.returncode, (p.stdout + p.stderr)
 
 
-def confirm(wt, prop, name):
+def confirm(wt, prop, name, patch_name="patch.diff", demo_name=None):
     env = {"PYTHONPATH": wt}
     env_off = dict(env)
-    patch = os.path.join(wt, "patch.diff")
-    demo = os.path.join(wt, f"demo_{prop}.py")
+    patch = os.path.join(wt, patch_name)
+    demo = os.path.join(wt, demo_name or f"demo_{prop}.py")
     assert os.path.exists(patch) and os.path.exists(demo), "missing patch.diff or demo"
     # clean tree, then apply the patch
     sh("git checkout -- gaftools", cwd=wt)
@@ -170,6 +170,13 @@ if __name__ == "__main__":
         sys.exit(prun(sys.argv[2], int(sys.argv[3]), sys.argv[4:]))
     if cmd == "confirm":
         sys.exit(confirm(*sys.argv[2:5]))
+    if cmd == "confirm3":      # a round in which every sub-agent delivers patch1..3.diff / demo1..3.py: <wt> <prop> <suffix letter>
+        wt, prop, letter = sys.argv[2:5]
+        bad = 0
+        for n in (1, 2, 3):
+            if os.path.exists(os.path.join(wt, f"patch{n}.diff")):
+                bad += confirm(wt, prop, f"{prop}-{letter}{n}", f"patch{n}.diff", f"demo{n}.py")
+        sys.exit(1 if bad else 0)
     elif cmd == "run":
         run(sys.argv[2], *(sys.argv[3:4] or ["quick"]), props=sys.argv[4:] or None)
     elif cmd == "runall":
